@@ -151,6 +151,82 @@ impl Ctx {
 	}
 }
 
+pub enum Isolated {
+	/// the child ran the case; signatures of the violations it reported
+	Completed(Vec<String>),
+	/// died by signal (stack overflow, abort, ...)
+	Died(String),
+	/// exceeded the CPU budget and was killed
+	CpuBudget(f64),
+	/// could not be run (harness problem): inconclusive
+	Inconclusive(String),
+}
+
+pub fn in_isolated_child() -> bool {
+	std::env::var("AVROVERIF_ISOLATED").is_ok()
+}
+
+/// Re-run the current case alone in a child process (used for the few cases that probe the stack
+/// or may not terminate, so that a crash costs one case and not the worker).
+pub fn run_isolated(prop: &str, thorough: bool, case_seed: u64, cpu_secs: f64) -> Isolated {
+	let exe = match std::env::current_exe() {
+		Ok(e) => e,
+		Err(e) => return Isolated::Inconclusive(e.to_string()),
+	};
+	let mut child = match std::process::Command::new(exe)
+		.arg("case")
+		.arg(prop)
+		.arg(if thorough { "thorough" } else { "quick" })
+		.arg(case_seed.to_string())
+		.env("AVROVERIF_ISOLATED", "1")
+		.stdout(std::process::Stdio::piped())
+		.stderr(std::process::Stdio::null())
+		.spawn()
+	{
+		Ok(c) => c,
+		Err(e) => return Isolated::Inconclusive(e.to_string()),
+	};
+	let t0 = Instant::now();
+	loop {
+		match child.try_wait() {
+			Ok(Some(status)) => {
+				use std::os::unix::process::ExitStatusExt;
+				if let Some(sig) = status.signal() {
+					return Isolated::Died(format!("signal {sig}"));
+				}
+				let mut out = String::new();
+				if let Some(mut so) = child.stdout.take() {
+					use std::io::Read;
+					let _ = so.read_to_string(&mut out);
+				}
+				let sigs: Vec<String> = out
+					.lines()
+					.filter_map(|l| l.strip_prefix("VIOLATION property=").and_then(|r| r.split_once(" signature=")).map(|(_, s)| s.to_owned()))
+					.collect();
+				if status.code() == Some(101) || status.code() == Some(134) {
+					return Isolated::Died(format!("exit {:?}", status.code()));
+				}
+				return Isolated::Completed(sigs);
+			}
+			Ok(None) => {
+				let cpu = proc_cpu_secs(child.id()).unwrap_or(0.0);
+				if cpu > cpu_secs {
+					let _ = child.kill();
+					let _ = child.wait();
+					return Isolated::CpuBudget(cpu);
+				}
+				if t0.elapsed() > Duration::from_secs((cpu_secs * 6.0) as u64 + 60) {
+					let _ = child.kill();
+					let _ = child.wait();
+					return Isolated::Inconclusive("wall-clock watchdog".into());
+				}
+				std::thread::sleep(Duration::from_millis(5));
+			}
+			Err(e) => return Isolated::Inconclusive(e.to_string()),
+		}
+	}
+}
+
 pub fn thread_cpu_ns() -> u64 {
 	let mut ts = libc::timespec { tv_sec: 0, tv_nsec: 0 };
 	// SAFETY: plain syscall writing into a local struct
@@ -466,6 +542,69 @@ pub fn parent_main(spec: &PropSpec, thorough: bool, seed: u64) -> i32 {
 		});
 	}
 
+	finish(Report {
+		id: spec.id,
+		level: spec.level,
+		rule: spec.rule,
+		assumptions: spec.assumptions,
+		required: spec.required,
+		thorough,
+		seed,
+		evaluations,
+		distinct: distinct.len(),
+		counters,
+		samples,
+		violations,
+		inconclusive,
+		inconclusive_workers,
+		nworkers,
+		wall: t0.elapsed().as_secs_f64(),
+		extra: None,
+	})
+}
+
+pub struct Report<'a> {
+	pub id: &'a str,
+	pub level: &'a str,
+	pub rule: &'a str,
+	pub assumptions: &'a [&'a str],
+	pub required: &'a [&'a str],
+	pub thorough: bool,
+	pub seed: u64,
+	pub evaluations: u64,
+	pub distinct: usize,
+	pub counters: BTreeMap<String, u64>,
+	pub samples: Vec<Value>,
+	pub violations: Vec<Violation>,
+	pub inconclusive: u64,
+	pub inconclusive_workers: u64,
+	pub nworkers: usize,
+	pub wall: f64,
+	pub extra: Option<Value>,
+}
+
+/// Apply the known-findings file, print VIOLATION / KNOWN-FINDING lines, write the evidence
+/// file and compute the exit code.
+pub fn finish(r: Report) -> i32 {
+	let Report {
+		id,
+		level,
+		rule,
+		assumptions,
+		required,
+		thorough,
+		seed,
+		evaluations,
+		distinct,
+		counters,
+		samples,
+		violations,
+		inconclusive,
+		inconclusive_workers,
+		nworkers,
+		wall,
+		extra,
+	} = r;
 	let known = Known::load();
 	let _ = std::fs::create_dir_all(format!("{VERIF}/replays"));
 	let mut n_viol = 0;
@@ -473,10 +612,10 @@ pub fn parent_main(spec: &PropSpec, thorough: bool, seed: u64) -> i32 {
 	let mut printed_viol: HashSet<String> = HashSet::new();
 	let mut known_hits: BTreeMap<String, u64> = BTreeMap::new();
 	for v in &violations {
-		if let Some(what) = known.is_known(spec.id, &v.signature) {
+		if let Some(what) = known.is_known(id, &v.signature) {
 			*known_hits.entry(v.signature.clone()).or_insert(0) += 1;
 			if printed_known.insert(v.signature.clone()) {
-				println!("KNOWN-FINDING: property={} {} [{}]", spec.id, what, v.signature);
+				println!("KNOWN-FINDING: property={} {} [{}]", id, what, v.signature);
 			}
 			continue;
 		}
@@ -486,12 +625,12 @@ pub fn parent_main(spec: &PropSpec, thorough: bool, seed: u64) -> i32 {
 		}
 		let path = format!(
 			"{VERIF}/replays/{}-{:08x}-{}.json",
-			spec.id,
+			id,
 			fnv(v.signature.as_bytes()) as u32,
 			v.case_seed
 		);
 		let body = json!({
-			"property": spec.id,
+			"property": id,
 			"tier": if thorough {"thorough"} else {"quick"},
 			"case_seed": v.case_seed.to_string(),
 			"signature": v.signature,
@@ -499,21 +638,20 @@ pub fn parent_main(spec: &PropSpec, thorough: bool, seed: u64) -> i32 {
 			"replay_cmd": format!("./check replay {path}"),
 		});
 		let _ = std::fs::write(&path, serde_json::to_string_pretty(&body).unwrap());
-		println!("VIOLATION property={} replay={}", spec.id, path);
+		println!("VIOLATION property={} replay={}", id, path);
 		println!("  signature: {}", v.signature);
 	}
 	// required paths
 	let mut missing: Vec<&str> = Vec::new();
-	for r in spec.required {
+	for r in required {
 		if counters.get(*r).copied().unwrap_or(0) == 0 {
 			missing.push(r);
 		}
 	}
-	let wall = t0.elapsed().as_secs_f64();
 	let mut cov = json!({
 		"evaluations": evaluations,
-		"distinct_nontrivial": distinct.len(),
-		"rule": spec.rule,
+		"distinct_nontrivial": distinct,
+		"rule": rule,
 		"samples": samples,
 		"exhaustive": false,
 		"counters": counters,
@@ -523,10 +661,7 @@ pub fn parent_main(spec: &PropSpec, thorough: bool, seed: u64) -> i32 {
 		"workers": nworkers,
 		"required_paths_missing": missing,
 	});
-	if let Some(extra) = std::fs::read(dir.join("extra.json"))
-		.ok()
-		.and_then(|b| serde_json::from_slice::<Value>(&b).ok())
-	{
+	if let Some(extra) = extra {
 		if let (Some(c), Some(e)) = (cov.as_object_mut(), extra.as_object()) {
 			for (k, v) in e {
 				c.insert(k.clone(), v.clone());
@@ -534,26 +669,26 @@ pub fn parent_main(spec: &PropSpec, thorough: bool, seed: u64) -> i32 {
 		}
 	}
 	let ev = json!({
-		"property_id": spec.id,
+		"property_id": id,
 		"tier": if thorough {"thorough"} else {"quick"},
 		"seed": seed,
-		"level": spec.level,
+		"level": level,
 		"coverage": cov,
-		"assumptions": spec.assumptions,
+		"assumptions": assumptions,
 		"wall_s": wall,
 		"violations": n_viol,
 	});
 	let _ = std::fs::create_dir_all(format!("{VERIF}/evidence"));
 	std::fs::write(
-		format!("{VERIF}/evidence/{}.json", spec.id),
+		format!("{VERIF}/evidence/{}.json", id),
 		serde_json::to_string_pretty(&ev).unwrap(),
 	)
 	.unwrap();
 	println!(
 		"{}: {} cases, {} distinct, {} violation witnesses ({} known-finding signatures), {} inconclusive, {:.1}s",
-		spec.id,
+		id,
 		evaluations,
-		distinct.len(),
+		distinct,
 		n_viol,
 		known_hits.len(),
 		inconclusive + inconclusive_workers,
